@@ -584,4 +584,595 @@ def session (w : World) (st : LState) (f : Flags) : List LOp → List (Obs × Bo
 
 end Stack
 
+
+/-! ### The atomic specification without the creator script
+
+`specStep` ties the outcome of creator call `c` to `cfg.fails c`. For a cache whose creator is itself a
+look-up in another cache (`Nest` below) the outcome also depends on that inner look-up, so the
+per-layer statements use the script-free discipline: a hit serves what the table holds, a creation or
+a failure happens only for an absent key, a clear resets. -/
+
+def specStepU (seed s : Key → Option Obj) : Ev → Option (Key → Option Obj)
+  | .hit _ k c => if s k = some c then some s else none
+  | .create _ k c => if s k = none then some (setKey s k c) else none
+  | .fail _ k _ => if s k = none then some s else none
+  | .clear _ => some seed
+
+def specRunU (seed : Key → Option Obj) : List Ev → Option (Key → Option Obj)
+  | [] => some seed
+  | e :: h => match specRunU seed h with
+    | none => none
+    | some s => specStepU seed s e
+
+/-! ### `LoaderCache.clear_pipes` next to look-ups
+
+  As repaired (fix fa2daa9):
+
+      def clear_pipes(self, loader_name=None):
+          if loader_name:
+              loader = self._cache.get(loader_name, None)   -- ONE unlocked dict read: off → iter [c] | iter []
+              if loader: loader.clear()
+          else:
+              with self._lock:                               -- off → snapping: wantLock → locked → …
+                  loaders = list(self._cache.values())       --   … the read under the lock (snapshot) …
+                                                             --   … toRelease → released → idle
+              for loader in loaders:                         -- snapping → iter snapshot
+                  loader.clear()                             -- iter (c :: todo) → clrWant c → clrRel c → iter todo
+                                                             -- (`Loader.clear` = `with self._pipeline_cache._lock: …clear()`)
+
+  `XState` = the one-lock system above (`base`, untouched: the cache instance is the `LoaderCache`) plus,
+  per thread, the program that may contain `clear_pipes` calls, and the locks of the Loader objects' own
+  pipeline caches (keyed by the Loader object = its creator-call number).
+
+  The snapshot's critical section — take the lock, READ the table, release — is run by the base system
+  itself as a look-up of a reserved, seeded key `snapKey` (a hit: `wantLock → locked → toRelease →
+  released → idle`, no write), so lock coherence, mutual exclusion with the creators and the turn
+  structure are the base system's own; at the `locked` step the extended system records the table.
+  Cached mode only (`cfg.noCache = false`): with `no_cache` nothing is ever stored in the table. -/
+namespace Scan
+
+/-- `(key, object)` of the creations in `h` (newest first) since the last clear, oldest first -/
+def epochCreates : List Ev → List (Key × Obj)
+  | [] => []
+  | .clear _ :: _ => []
+  | .create _ k c :: h => epochCreates h ++ [(k, c)]
+  | _ :: h => epochCreates h
+
+/-- the entries of `self._cache` in insertion order, as a reader sees them now: a creation whose store
+    (`created → toRelease`) has not happened yet is not there -/
+def visible (st : State) : List (Key × Obj) :=
+  (epochCreates st.hist).filter fun kc => st.cache kc.1 == some kc.2
+
+inductive SOp where
+  | base (op : Op)
+  /-- `clear_pipes()` -/
+  | clearPipes
+  /-- `clear_pipes(loader_name)` -/
+  | clearPipesOf (k : Key)
+  deriving DecidableEq, Repr, Inhabited
+
+/-- how a `clear_pipes` call ended: the Loader objects it cleared, in order; `sizeChanged` =
+    `RuntimeError: dictionary changed size during iteration` (pre-fix only, see `ScanPre`) -/
+inductive SRes where
+  | swept (cleared : List Obj)
+  | sizeChanged (cleared : List Obj)
+  deriving DecidableEq, Repr, Inhabited
+
+inductive SPc where
+  | off
+  /-- inside `with self._lock: loaders = list(…)`; `snap` = the list once it has been read -/
+  | snapping (snap : Option (List Obj))
+  /-- between two iterations of `for loader in loaders`: still to clear, cleared (newest first) -/
+  | iter (todo done : List Obj)
+  /-- in `loader.clear()`: waiting for Loader object `c`'s pipeline-cache lock -/
+  | clrWant (todo done : List Obj) (c : Obj)
+  /-- holds it, has emptied that Loader's pipeline cache; about to release -/
+  | clrRel (todo done : List Obj) (c : Obj)
+  deriving DecidableEq, Repr, Inhabited
+
+structure SThread where
+  sops : List SOp
+  spc : SPc
+  /-- outcomes of the finished `clear_pipes` calls, newest first -/
+  sres : List SRes
+  /-- ghost: what each `clear_pipes` call read from the table (its snapshot), newest first -/
+  snaps : List (List Obj)
+  deriving Repr, Inhabited
+
+structure XState where
+  base : State
+  scan : Tid → SThread
+  /-- `Loader._pipeline_cache._lock` of Loader object `c` -/
+  llock : Obj → Option Tid
+
+def XState.setScan (x : XState) (t : Tid) (sc : SThread) : XState :=
+  { x with scan := fun u => if u = t then sc else x.scan u }
+
+/-- One micro-step of thread `t`; `snapKey` = the reserved key (see the section header). -/
+def xstep (cfg : Cfg) (snapKey : Key) (x : XState) (t : Tid) : XState :=
+  let sc := x.scan t
+  let th := x.base.threads t
+  match sc.spc with
+  | .snapping snap =>
+    if th.pc = .idle then
+      -- the `with` block is over: start iterating the list that was read
+      x.setScan t { sc with spc := .iter (snap.getD []) [], snaps := snap.getD [] :: sc.snaps }
+    else if th.pc = .locked (.get snapKey) then
+      -- `loaders = list(self._cache.values())`, under the lock
+      { x.setScan t { sc with spc := .snapping (some ((visible x.base).map (·.2))) } with base := step cfg x.base t }
+    else { x with base := step cfg x.base t }
+  | .iter todo done =>
+    match todo with
+    | [] => x.setScan t { sc with spc := .off, sres := .swept done.reverse :: sc.sres }
+    | c :: rest => x.setScan t { sc with spc := .clrWant rest done c }
+  | .clrWant todo done c =>
+    match x.llock c with
+    | some _ => x
+    | none => { x.setScan t { sc with spc := .clrRel todo done c } with
+                llock := fun c' => if c' = c then some t else x.llock c' }
+  | .clrRel todo done c =>
+    { x.setScan t { sc with spc := .iter todo (c :: done) } with
+      llock := fun c' => if c' = c then none else x.llock c' }
+  | .off =>
+    if th.pc = .idle ∧ th.ops = [] then
+      match sc.sops with
+      | [] => x
+      | .base op :: rest =>
+        { x.setScan t { sc with sops := rest } with
+          base := step cfg (x.base.setThread t { th with ops := [op] }) t }
+      | .clearPipes :: rest =>
+        { x.setScan t { sc with sops := rest, spc := .snapping none } with
+          base := step cfg (x.base.setThread t { th with ops := [.get snapKey] }) t }
+      | .clearPipesOf k :: rest =>
+        -- `self._cache.get(loader_name)`: one read of the table as it is now, no lock
+        let l := match x.base.cache k with
+          | some c => [c]
+          | none => []
+        x.setScan t { sc with sops := rest, spc := .iter l [], snaps := l :: sc.snaps }
+    else { x with base := step cfg x.base t }
+
+def xrun (cfg : Cfg) (snapKey : Key) (x : XState) : List Tid → XState
+  | [] => x
+  | t :: ts => xrun cfg snapKey (xstep cfg snapKey x t) ts
+
+def xinit (cfg : Cfg) (prog : Tid → List SOp) : XState :=
+  { base := init cfg (fun _ => []), scan := fun t => { sops := prog t, spc := .off, sres := [], snaps := [] },
+    llock := fun _ => none }
+
+/-- parking places of the harness: those of the base system, and the Loader lock's enter/exit -/
+def xparked (x : XState) (t : Tid) : Bool :=
+  match (x.scan t).spc with
+  | .off => (x.base.threads t).pc.parked
+  | .snapping _ => (x.base.threads t).pc.parked && (x.base.threads t).pc != .idle
+  | .iter _ _ => false
+  | .clrWant _ _ _ | .clrRel _ _ _ => true
+
+def xsettle (cfg : Cfg) (snapKey : Key) : Nat → XState → Tid → XState
+  | 0, x, _ => x
+  | n + 1, x, t => if xparked x t then x else xsettle cfg snapKey n (xstep cfg snapKey x t) t
+
+def xturn (cfg : Cfg) (snapKey : Key) (x : XState) (t : Tid) : XState :=
+  xsettle cfg snapKey 4 (xstep cfg snapKey x t) t
+
+def xenabled (x : XState) (t : Tid) : Bool :=
+  match (x.scan t).spc with
+  | .off =>
+    if (x.base.threads t).pc = .idle ∧ (x.base.threads t).ops = [] then !(x.scan t).sops.isEmpty
+    else enabled x.base t
+  | .snapping _ => (x.base.threads t).pc == .idle || enabled x.base t
+  | .clrWant _ _ c => (x.llock c).isNone
+  | _ => true
+
+def xrunTurns (cfg : Cfg) (snapKey : Key) (x : XState) : List Tid → XState
+  | [] => x
+  | t :: ts => xrunTurns cfg snapKey (xturn cfg snapKey x t) ts
+
+def xfinish (cfg : Cfg) (snapKey : Key) (n : Nat) : Nat → XState → XState
+  | 0, x => x
+  | fuel + 1, x =>
+    match (List.range n).find? (xenabled x) with
+    | none => x
+    | some t => xfinish cfg snapKey n fuel (xturn cfg snapKey x t)
+
+end Scan
+
+/-! ### `LoaderCache.clear_pipes()` BEFORE fix fa2daa9 — read and iterated the table WITHOUT the lock
+
+          else:
+              for _, loader in self._cache.items():       -- iterator made: off → iter used 0
+                  loader.clear()                          -- iter → clrWant → clrRel → iter
+
+  CPython's `dictiter_iternextitem`: every `next()` first compares the size the dict had when the
+  iterator was made (`di_used`) with its present size and raises `RuntimeError("dictionary changed
+  size during iteration")` when they differ; then it yields the entry at `di_pos`, or stops when
+  there is none. The table only ever grows by one appended entry (`self._cache[key] = obj`, under
+  the lock, for an absent key) or is emptied (`clear`), so the entries are the creations since the
+  last clear whose store has happened, in order (`Scan.visible`). Pinned here for the witness
+  `clear_pipes_race_pre_fix` (`Props/C13.lean`); nothing else refers to it. -/
+namespace ScanPre
+open Scan (visible SOp SRes)
+
+inductive SPc where
+  | off
+  /-- between two `next()` calls: `di_used`, `di_pos`, cleared so far (newest first) -/
+  | iter (used pos : Nat) (done : List Obj)
+  | clrWant (used pos : Nat) (done : List Obj) (c : Obj)
+  | clrRel (used pos : Nat) (done : List Obj) (c : Obj)
+  deriving DecidableEq, Repr, Inhabited
+
+structure SThread where
+  sops : List SOp
+  spc : SPc
+  sres : List SRes
+  deriving Repr, Inhabited
+
+structure XState where
+  base : State
+  scan : Tid → SThread
+  llock : Obj → Option Tid
+
+def XState.setScan (x : XState) (t : Tid) (sc : SThread) : XState :=
+  { x with scan := fun u => if u = t then sc else x.scan u }
+
+def xstep (cfg : Cfg) (x : XState) (t : Tid) : XState :=
+  let sc := x.scan t
+  match sc.spc with
+  | .iter used pos done =>
+    if (visible x.base).length ≠ used then
+      x.setScan t { sc with spc := .off, sres := .sizeChanged done.reverse :: sc.sres }
+    else match (visible x.base)[pos]? with
+      | some kc => x.setScan t { sc with spc := .clrWant used pos done kc.2 }
+      | none => x.setScan t { sc with spc := .off, sres := .swept done.reverse :: sc.sres }
+  | .clrWant used pos done c =>
+    match x.llock c with
+    | some _ => x
+    | none => { x.setScan t { sc with spc := .clrRel used pos done c } with
+                llock := fun c' => if c' = c then some t else x.llock c' }
+  | .clrRel used pos done c =>
+    { x.setScan t { sc with spc := .iter used (pos + 1) (c :: done) } with
+      llock := fun c' => if c' = c then none else x.llock c' }
+  | .off =>
+    let th := x.base.threads t
+    if th.pc = .idle ∧ th.ops = [] then
+      match sc.sops with
+      | [] => x
+      | .base op :: rest =>
+        { x.setScan t { sc with sops := rest } with
+          base := step cfg (x.base.setThread t { th with ops := [op] }) t }
+      | .clearPipes :: rest =>
+        x.setScan t { sc with sops := rest, spc := .iter (visible x.base).length 0 [] }
+      | .clearPipesOf _ :: rest => x.setScan t { sc with sops := rest }
+    else { x with base := step cfg x.base t }
+
+def xrun (cfg : Cfg) (x : XState) : List Tid → XState
+  | [] => x
+  | t :: ts => xrun cfg (xstep cfg x t) ts
+
+def xinit (cfg : Cfg) (prog : Tid → List SOp) : XState :=
+  { base := init cfg (fun _ => []), scan := fun t => { sops := prog t, spc := .off, sres := [] },
+    llock := fun _ => none }
+
+end ScanPre
+
+/-! ### Two locks: a cache whose creator looks up another cache
+
+`Loader.get_pipeline` → `self._pipeline_cache.get(key, lambda: self._load_pipeline(name, parent))`;
+for the file loader `_load_pipeline` → `pypyr.loaders.file.get_pipeline_definition` →
+`file_cache.get(str(path), lambda: load_pipeline_from_file(path))`. So the OUTER cache's creator
+runs, still under the outer lock, a whole `get` on the INNER cache (second lock):
+
+      outer.get(ko):  with outer._lock:                       -- wantO → lockedO
+                          if ko in outer._cache: …hit          -- lockedO → relO
+                          else:
+                              obj = creator()                  -- lockedO → inCrO
+                                  inner.get(ki):               -- inCrO → wantI (some (ko, c))
+                                      with inner._lock: …      -- wantI → lockedI → (relI | inCrI → exitI → (createdI →)? relI)
+                                                               -- relI → doneI
+                                  (wrap / validate / raise)    -- doneI → exitO → (createdO | relO (raised))
+                              outer._cache[ko] = obj           -- createdO → relO
+                                                               -- relO → doneO → idle
+
+The lock order is outer-then-inner only: nothing that runs under the inner lock
+(`load_pipeline_from_file`) looks anything up in a pipeline cache. Other threads reach the inner
+cache directly (`getI`, `clearI`: from this pair's point of view that is what the creator of
+ANOTHER Loader's pipeline cache, or `file_cache.clear()`, looks like).
+
+`getRe` is NOT pypyr: an outer get whose creator gets from the SAME cache. `threading.Lock` is not
+re-entrant, so that thread waits for ever for the lock it holds (`reWant`). It is in the model to
+make the assumption "no creator re-enters its own cache" explicit (`Props/C13.lean`,
+`reentrant_get_deadlocks`). -/
+namespace Nest
+
+inductive NOp where
+  | getO (ko ki : Key)
+  | getI (ki : Key)
+  | clearO
+  | clearI
+  | getRe (ko ko' : Key)
+  deriving DecidableEq, Repr, Inhabited
+
+/-- an operation on the outer cache -/
+inductive OOp where
+  | get (ko ki : Key)
+  | clear
+  | re (ko ko' : Key)
+  deriving DecidableEq, Repr, Inhabited
+
+/-- an operation on the inner cache -/
+inductive IOp where
+  | get (ki : Key)
+  | clear
+  deriving DecidableEq, Repr, Inhabited
+
+/-- the outer creator invocation an inner operation is nested in: (outer key, outer call number) -/
+abbrev Frame := Option (Key × Nat)
+
+inductive NPc where
+  | idle
+  | wantO (op : OOp)
+  | lockedO (op : OOp)
+  | inCrO (ko ki : Key) (c : Nat)
+  | reWant (ko ko' : Key) (c : Nat)
+  | wantI (fr : Frame) (op : IOp)
+  | lockedI (fr : Frame) (op : IOp)
+  | inCrI (fr : Frame) (ki : Key) (c : Nat)
+  | exitI (fr : Frame) (ki : Key) (c : Nat)
+  | createdI (fr : Frame) (ki : Key) (c : Obj)
+  | relI (fr : Frame) (r : Res)
+  | doneI (fr : Frame) (r : Res)
+  | exitO (ko : Key) (c : Nat) (ri : Res)
+  | createdO (ko : Key) (c : Obj)
+  | relO (r : Res)
+  | doneO (r : Res)
+  deriving DecidableEq, Repr, Inhabited
+
+structure NThread where
+  ops : List NOp
+  pc : NPc
+  results : List Res
+  deriving Repr, Inhabited
+
+/-- creator scripts: does outer creator call `n` raise after its inner look-up returned
+    (`_load_pipeline`'s "must be a mapping"); does inner creator call `n` raise -/
+structure NCfg where
+  failsO : Nat → Bool
+  failsI : Nat → Bool
+
+structure NState where
+  threads : Tid → NThread
+  lockO : Option Tid
+  lockI : Option Tid
+  cacheO : Key → Option Obj
+  cacheI : Key → Option Obj
+  callsO : Nat
+  callsI : Nat
+  /-- ghost histories of the two layers, newest first -/
+  histO : List Ev
+  histI : List Ev
+
+def NState.setThread (st : NState) (t : Tid) (th : NThread) : NState :=
+  { st with threads := fun u => if u = t then th else st.threads u }
+
+def emptyTab : Key → Option Obj := fun _ => none
+
+/-- One micro-step of thread `t` (see the section header). -/
+def nstep (cfg : NCfg) (st : NState) (t : Tid) : NState :=
+  let th := st.threads t
+  match th.pc with
+  | .idle =>
+    match th.ops with
+    | [] => st
+    | op :: rest =>
+      match op with
+      | .getO ko ki => st.setThread t { th with ops := rest, pc := .wantO (.get ko ki) }
+      | .clearO => st.setThread t { th with ops := rest, pc := .wantO .clear }
+      | .getRe ko ko' => st.setThread t { th with ops := rest, pc := .wantO (.re ko ko') }
+      | .getI ki => st.setThread t { th with ops := rest, pc := .wantI none (.get ki) }
+      | .clearI => st.setThread t { th with ops := rest, pc := .wantI none .clear }
+  | .wantO op =>
+    match st.lockO with
+    | some _ => st
+    | none => { st.setThread t { th with pc := .lockedO op } with lockO := some t }
+  | .lockedO op =>
+    match op with
+    | .get ko ki =>
+      match st.cacheO ko with
+      | some c => { st.setThread t { th with pc := .relO (.val c) } with histO := .hit t ko c :: st.histO }
+      | none => { st.setThread t { th with pc := .inCrO ko ki st.callsO } with callsO := st.callsO + 1 }
+    | .re ko ko' =>
+      match st.cacheO ko with
+      | some c => { st.setThread t { th with pc := .relO (.val c) } with histO := .hit t ko c :: st.histO }
+      | none => { st.setThread t { th with pc := .reWant ko ko' st.callsO } with callsO := st.callsO + 1 }
+    | .clear =>
+      { st.setThread t { th with pc := .relO .cleared } with cacheO := emptyTab, histO := .clear t :: st.histO }
+  | .inCrO ko ki c => st.setThread t { th with pc := .wantI (some (ko, c)) (.get ki) }
+  | .reWant _ _ _ => st      -- `outer._lock.acquire()` by the thread that holds it: never granted
+  | .wantI fr op =>
+    match st.lockI with
+    | some _ => st
+    | none => { st.setThread t { th with pc := .lockedI fr op } with lockI := some t }
+  | .lockedI fr op =>
+    match op with
+    | .get ki =>
+      match st.cacheI ki with
+      | some c => { st.setThread t { th with pc := .relI fr (.val c) } with histI := .hit t ki c :: st.histI }
+      | none => { st.setThread t { th with pc := .inCrI fr ki st.callsI } with callsI := st.callsI + 1 }
+    | .clear =>
+      { st.setThread t { th with pc := .relI fr .cleared } with cacheI := emptyTab, histI := .clear t :: st.histI }
+  | .inCrI fr ki c => st.setThread t { th with pc := .exitI fr ki c }
+  | .exitI fr ki c =>
+    if cfg.failsI c then
+      { st.setThread t { th with pc := .relI fr (.raised c) } with histI := .fail t ki c :: st.histI }
+    else
+      { st.setThread t { th with pc := .createdI fr ki c } with histI := .create t ki c :: st.histI }
+  | .createdI fr ki c =>
+    { st.setThread t { th with pc := .relI fr (.val c) } with cacheI := setKey st.cacheI ki c }
+  | .relI fr r => { st.setThread t { th with pc := .doneI fr r } with lockI := none }
+  | .doneI fr r =>
+    match fr with
+    | none => st.setThread t { th with pc := .idle, results := r :: th.results }
+    | some (ko, c) => st.setThread t { th with pc := .exitO ko c r }
+  | .exitO ko c ri =>
+    match ri with
+    | .val _ =>
+      if cfg.failsO c then
+        { st.setThread t { th with pc := .relO (.raised c) } with histO := .fail t ko c :: st.histO }
+      else
+        { st.setThread t { th with pc := .createdO ko c } with histO := .create t ko c :: st.histO }
+    | _ => { st.setThread t { th with pc := .relO (.raised c) } with histO := .fail t ko c :: st.histO }
+  | .createdO ko c =>
+    { st.setThread t { th with pc := .relO (.val c) } with cacheO := setKey st.cacheO ko c }
+  | .relO r => { st.setThread t { th with pc := .doneO r } with lockO := none }
+  | .doneO r => st.setThread t { th with pc := .idle, results := r :: th.results }
+
+def nrun (cfg : NCfg) (st : NState) : List Tid → NState
+  | [] => st
+  | t :: ts => nrun cfg (nstep cfg st t) ts
+
+def ninit (prog : Tid → List NOp) : NState :=
+  { threads := fun t => { ops := prog t, pc := .idle, results := [] }
+    lockO := none, lockI := none, cacheO := emptyTab, cacheI := emptyTab, callsO := 0, callsI := 0,
+    histO := [], histI := [] }
+
+/-- Can a micro-step of `t` change anything? -/
+def nenabled (st : NState) (t : Tid) : Bool :=
+  match (st.threads t).pc with
+  | .idle => !(st.threads t).ops.isEmpty
+  | .wantO _ => st.lockO.isNone
+  | .wantI _ _ => st.lockI.isNone
+  | .reWant _ _ _ => false
+  | _ => true
+
+/-- where the harness can park a real thread: before an operation, in either lock's `__enter__`
+    and `__exit__`, on entry to and exit from the inner creator -/
+def NPc.parked : NPc → Bool
+  | .idle | .wantO _ | .reWant _ _ _ | .wantI _ _ | .inCrI _ _ _ | .exitI _ _ _ | .relI _ _ | .relO _ => true
+  | _ => false
+
+def nsettle (cfg : NCfg) : Nat → NState → Tid → NState
+  | 0, st, _ => st
+  | n + 1, st, t => if (st.threads t).pc.parked then st else nsettle cfg n (nstep cfg st t) t
+
+def nturn (cfg : NCfg) (st : NState) (t : Tid) : NState := nsettle cfg 5 (nstep cfg st t) t
+
+def nrunTurns (cfg : NCfg) (st : NState) : List Tid → NState
+  | [] => st
+  | t :: ts => nrunTurns cfg (nturn cfg st t) ts
+
+def nfinish (cfg : NCfg) (n : Nat) : Nat → NState → NState
+  | 0, st => st
+  | fuel + 1, st =>
+    match (List.range n).find? (nenabled st) with
+    | none => st
+    | some t => nfinish cfg n fuel (nturn cfg st t)
+
+end Nest
+
+/-! ### `add_sys_path` at the granularity of the single set operations
+
+`_known_dirs` / `_missing_dirs` are plain sets read and written OUTSIDE `_sys_path_lock`. `spStep`
+above does the entry test `path in _known_dirs and path not in _missing_dirs` and the pair
+`_known_dirs.add(path); _missing_dirs.add(path)` in one step each. Here every set operation is a
+step of its own (each one is atomic in CPython; another thread can run between any two):
+
+                                                 -- fIdle → fChkK (the call starts)
+      if path in _known_dirs                     -- fChkK → fChkM | fExists
+         and path not in _missing_dirs: return   -- fChkM → fIdle | fExists
+      if not path_obj.exists():                  -- fExists → fAddK | fDiscard
+          _known_dirs.add(path)                  -- fAddK → fAddM
+          _missing_dirs.add(path); return        -- fAddM → fIdle
+      _missing_dirs.discard(path)                -- fDiscard → fWant
+      with _sys_path_lock:                       -- fWant → fLocked
+          if path_str not in sys.path:           -- fLocked → fAppend | fRelease
+              sys.path.append(path_str)          -- fAppend → fRelease
+                                                 -- fRelease → fKnown
+      _known_dirs.add(path)                      -- fKnown → fIdle
+-/
+
+inductive FPc where
+  | fIdle | fChkK (p : Nat) | fChkM (p : Nat) | fExists (p : Nat) | fAddK (p : Nat) | fAddM (p : Nat) | fDiscard (p : Nat)
+  | fWant (p : Nat) | fLocked (p : Nat) | fAppend (p : Nat) | fRelease (p : Nat) | fKnown (p : Nat)
+  deriving DecidableEq, Repr, Inhabited
+
+structure FThread where
+  ops : List Nat
+  pc : FPc
+  deriving Repr, Inhabited
+
+structure FState where
+  threads : Tid → FThread
+  lock : Option Tid
+  sysPath : List Nat
+  known : List Nat
+  missing : List Nat
+
+def FState.setThread (st : FState) (t : Tid) (th : FThread) : FState :=
+  { st with threads := fun u => if u = t then th else st.threads u }
+
+def fStep (ex : Nat → Bool) (st : FState) (t : Tid) : FState :=
+  let th := st.threads t
+  match th.pc with
+  | .fIdle =>
+    match th.ops with
+    | [] => st
+    | p :: rest => st.setThread t { ops := rest, pc := .fChkK p }
+  | .fChkK p =>
+    if p ∈ st.known then st.setThread t { th with pc := .fChkM p }
+    else st.setThread t { th with pc := .fExists p }
+  | .fChkM p =>
+    if p ∉ st.missing then st.setThread t { th with pc := .fIdle }
+    else st.setThread t { th with pc := .fExists p }
+  | .fExists p =>
+    if ex p then st.setThread t { th with pc := .fDiscard p } else st.setThread t { th with pc := .fAddK p }
+  | .fAddK p => { st.setThread t { th with pc := .fAddM p } with known := p :: st.known }
+  | .fAddM p => { st.setThread t { th with pc := .fIdle } with missing := p :: st.missing }
+  | .fDiscard p => { st.setThread t { th with pc := .fWant p } with missing := st.missing.filter (· ≠ p) }
+  | .fWant p =>
+    match st.lock with
+    | some _ => st
+    | none => { st.setThread t { th with pc := .fLocked p } with lock := some t }
+  | .fLocked p =>
+    if p ∈ st.sysPath then st.setThread t { th with pc := .fRelease p }
+    else st.setThread t { th with pc := .fAppend p }
+  | .fAppend p => { st.setThread t { th with pc := .fRelease p } with sysPath := st.sysPath ++ [p] }
+  | .fRelease p => { st.setThread t { th with pc := .fKnown p } with lock := none }
+  | .fKnown p => { st.setThread t { th with pc := .fIdle } with known := p :: st.known }
+
+def fRun (ex : Nat → Bool) (st : FState) : List Tid → FState
+  | [] => st
+  | t :: ts => fRun ex (fStep ex st t) ts
+
+def fInit (sysPath : List Nat) (prog : Tid → List Nat) : FState :=
+  { threads := fun t => { ops := prog t, pc := .fIdle }, lock := none, sysPath := sysPath, known := [], missing := [] }
+
+def fEnabled (st : FState) (t : Tid) : Bool :=
+  match (st.threads t).pc with
+  | .fIdle => !(st.threads t).ops.isEmpty
+  | .fWant _ => st.lock.isNone
+  | _ => true
+
+/-- where the harness parks a real thread: before the call, before every operation on `_known_dirs` /
+    `_missing_dirs` (the harness replaces them by sets that hand over control first), in the lock's
+    `__enter__` and `__exit__` -/
+def FPc.parked : FPc → Bool
+  | .fExists _ | .fLocked _ | .fAppend _ => false
+  | _ => true
+
+def fSettle (ex : Nat → Bool) : Nat → FState → Tid → FState
+  | 0, st, _ => st
+  | n + 1, st, t => if (st.threads t).pc.parked then st else fSettle ex n (fStep ex st t) t
+
+def fTurn (ex : Nat → Bool) (st : FState) (t : Tid) : FState := fSettle ex 3 (fStep ex st t) t
+
+def fRunTurns (ex : Nat → Bool) (st : FState) : List Tid → FState
+  | [] => st
+  | t :: ts => fRunTurns ex (fTurn ex st t) ts
+
+def fFinish (ex : Nat → Bool) (n : Nat) : Nat → FState → FState
+  | 0, st => st
+  | fuel + 1, st =>
+    match (List.range n).find? (fEnabled st) with
+    | none => st
+    | some t => fFinish ex n fuel (fTurn ex st t)
+
 end Pypyr.CacheTS
